@@ -14,22 +14,26 @@ open Chalk.FixedPoint.Cyc (JE JA MinLe InCache InGraph Def Undef flagAt StackExt
   setCycle_getElem?_eq pushed)
 
 section
-variable {inst : Instance} {P : Nat → Prop} {dom : List Nat} {lvl : Nat → Nat}
+variable {inst : Instance} {P : Nat → Prop} {dom : List Nat} {lvl : Nat → Nat} {fx : Bool}
 
-theorem Inv.work {s : St} (h : Inv inst P dom lvl s) (w : Nat) : Inv inst P dom lvl { s with work := w } :=
-  ⟨h.quiet, h.cacheOK, h.stackNode, h.chain, h.nodup, h.disj, h.inDom, h.val, h.approx, h.stk, h.nonstk,
+theorem Inv.work {s : St} (h : Inv inst P dom lvl fx s) (w : Nat) : Inv inst P dom lvl fx { s with work := w } :=
+  ⟨h.fixes, h.amb, h.cacheOK, h.stackNode, h.chain, h.nodup, h.disj, h.inDom, h.val, h.approx, h.stk, h.nonstk,
    h.cnt, h.just, h.lvlLinks⟩
 
 theorem Step.work (s : St) (w : Nat) (lb : Min) : Step inst P s { s with work := w } lb :=
   ⟨⟨[], by simp, fun n hn => by cases hn⟩, StackExt.refl _, fun _ _ h => h, fun _ _ h => h,
-   fun k hu hd => absurd hd (hu _), rfl⟩
+   fun k hu hd => absurd hd (hu _), rfl, id, fun q => ⟨q, id⟩⟩
 
-theorem Inv.stackChange {s s' : St} (h : Inv inst P dom lvl s) (hg : s'.graph = s.graph) (R : Rest s s')
-    (hext : StackExt s.stack s'.stack) : Inv inst P dom lvl s' := by
+theorem Inv.stackChange {s s' : St} (h : Inv inst P dom lvl fx s) (hg : s'.graph = s.graph) (R : Rest s s')
+    (hext : StackExt s.stack s'.stack) : Inv inst P dom lvl fx s' := by
   have hwit : ∀ {lb : Min} {v : V} {j : Nat}, Wit inst P s lb v j → Wit inst P s' lb v j :=
     fun hw => hw.from0 ⟨[], by rw [hg, List.append_nil]⟩ (fun d hd => hext.flag hd)
-  refine ⟨?_, fun k v hk => h.cacheOK k v (R.inCache.mp hk), ?_, ?_, ?_, ?_, ?_, ?_, ?_, ?_, ?_, ?_, ?_, ?_⟩
-  · rw [R.oracle, R.oracleDefault, R.interrupted]; exact h.quiet
+  refine ⟨h.fixes.imp id (fun q => ⟨⟨by rw [R.oracle]; exact q.1.1, by rw [R.oracleDefault]; exact q.1.2⟩,
+      by rw [R.interrupted]; exact q.2⟩), ?_,
+    fun k v hk => h.cacheOK k v (R.inCache.mp hk), ?_, ?_, ?_, ?_, ?_, ?_, ?_, ?_, ?_, ?_, ?_, ?_⟩
+  · intro i n hn ha
+    rw [hg] at hn
+    rw [R.interrupted]; exact h.amb i n hn ha
   · intro d e' he'
     have hlt : d < s.stack.length := by rw [← hext.1]; exact getElem?_lt_length he'
     obtain ⟨e'', he'', hco, _⟩ := hext.2 d s.stack[d] (List.getElem?_eq_getElem hlt)
@@ -66,7 +70,9 @@ theorem Step.stackOnly {s s' : St} (hg : s'.graph = s.graph) (R : Rest s s')
       obtain ⟨i, n, hn, h2⟩ := h
       exact Or.inr ⟨i, n, by rw [hg]; exact hn, h2⟩
   refine ⟨⟨[], by rw [hg, List.append_nil], fun n hn => by cases hn⟩, hext,
-    fun k v h => R.inCache.mpr h, hd, ?_, by rw [R.cache]⟩
+    fun k v h => R.inCache.mpr h, hd, ?_, by rw [R.cache], fun e => by rw [R.interrupted]; exact e,
+    fun q => ⟨⟨by rw [R.oracle]; exact q.1, by rw [R.oracleDefault]; exact q.2⟩,
+      fun e => by rw [R.interrupted]; exact e⟩⟩
   intro k hu hdef
   exfalso
   cases hdef with
@@ -76,11 +82,14 @@ theorem Step.stackOnly {s s' : St} (hg : s'.graph = s.graph) (R : Rest s s')
     rw [hg] at hn
     exact hu _ (Or.inr ⟨i, n, hn, h2⟩)
 
-theorem Inv.not_inG_of_bot {s : St} (h : Inv inst P dom lvl s) {k : Nat} (hd : Def s k (botOf inst k)) :
+theorem Inv.not_inG_of_bot {s : St} (h : Inv inst P dom lvl fx s) {k : Nat} (hd : Def s k (botOf inst k)) :
     ¬ InG inst P s k := by
   intro hin
   cases hin.unfold with
-  | inl h2 => exact topOf_ne_botOf inst k (h.defFun h2 hd)
+  | inl h2 =>
+    cases h2 with
+    | inl h3 => exact topOf_ne_botOf inst k (h.defFun h3 hd)
+    | inr h3 => exact botOf_ne_ambig inst k (h.defFun hd h3)
   | inr h2 => exact h2.1 _ hd
 
 theorem mixedFrom_seg {st : List StackEntry} {b : Bool} {d : Nat}
@@ -102,7 +111,7 @@ theorem mixedFrom_seg {st : List StackEntry} {b : Bool} {d : Nat}
 
 /-- when the goal `g` is found on the stack at depth `depth`, the stack from there on has the
     polarity of `g`: the cycle that is closed is not mixed -/
-theorem hit_same_pol {s : St} (hi : Inv inst P dom lvl s) {g : Nat} (hb : Below inst lvl s g) {dfn : Nat}
+theorem hit_same_pol {s : St} (hi : Inv inst P dom lvl fx s) {g : Nat} (hb : Below inst lvl s g) {dfn : Nat}
     {x : Node} {depth : Nat} (hx : s.graph[dfn]? = some x) (hgo : x.goal = g)
     (hsd : x.stackDepth = some depth) :
     ∀ (j : Nat) (e : StackEntry), depth ≤ j → s.stack[j]? = some e → e.coinductiveGoal = inst.coind g := by
@@ -113,7 +122,7 @@ theorem hit_same_pol {s : St} (hi : Inv inst P dom lvl s) {g : Nat} (hb : Below 
   rw [hgo] at h1
   rw [hc, h1.2 (Nat.le_antisymm h1.1 h2.1)]
 
-theorem hit_not_mixed {s : St} (hi : Inv inst P dom lvl s) {g : Nat} (hb : Below inst lvl s g) {dfn : Nat}
+theorem hit_not_mixed {s : St} (hi : Inv inst P dom lvl fx s) {g : Nat} (hb : Below inst lvl s g) {dfn : Nat}
     {x : Node} {depth : Nat} (hx : s.graph[dfn]? = some x) (hgo : x.goal = g)
     (hsd : x.stackDepth = some depth) :
     mixedFrom (setCycle true depth s.stack) depth = false := by
@@ -131,9 +140,9 @@ theorem hit_not_mixed {s : St} (hi : Inv inst P dom lvl s) {g : Nat} (hb : Below
     exact hit_same_pol hi hb hx hgo hsd (depth + k) e (Nat.le_add_right _ _) hk
 
 /-- the state after the push starts the loop -/
-theorem push_loopSt (hyp : MHyp inst P dom lvl) {s0 : St} (i0 : Inv inst P dom lvl s0) {g : Nat}
+theorem push_loopSt (hyp : MHyp inst P dom lvl) {s0 : St} (i0 : Inv inst P dom lvl fx s0) {g : Nat}
     (hu : Undef s0 g) (hg : g ∈ dom) (hb : Below inst lvl s0 g) :
-    LoopSt inst P dom lvl s0 g (pushed inst g s0) := by
+    LoopSt inst P dom lvl fx s0 g (pushed inst g s0) := by
   have hgr : (pushed inst g s0).graph = s0.graph ++ [headNode s0 g (topOf inst g)] := by
     simp only [pushed, headNode, topOf]
   have hst : (pushed inst g s0).stack = s0.stack ++ [⟨inst.coind g, false⟩] := by
@@ -157,8 +166,15 @@ theorem push_loopSt (hyp : MHyp inst P dom lvl) {s0 : St} (i0 : Inv inst P dom l
     exact single_cases _ _ i n hn
   have hhead : (pushed inst g s0).graph[s0.graph.length]? = some (headNode s0 g (topOf inst g)) := by
     rw [hgr]; exact mid_at _ _ _
-  have hinv : Inv inst P dom lvl (pushed inst g s0) := by
-    refine ⟨i0.quiet, i0.cacheOK, ?_, ?_, ?_, ?_, ?_, ?_, ?_, ?_, ?_, ?_, ?_, ?_⟩
+  have hinv : Inv inst P dom lvl fx (pushed inst g s0) := by
+    refine ⟨i0.fixes, ?_, i0.cacheOK, ?_, ?_, ?_, ?_, ?_, ?_, ?_, ?_, ?_, ?_, ?_, ?_⟩
+    · intro i n hn ha
+      cases hnode hn with
+      | inl h => exact i0.amb i n h.2 ha
+      | inr h =>
+        rw [h.2] at ha
+        have e : topOf inst g = .ambig := ha
+        exact absurd e (topOf_ne_ambig inst g)
     · intro d e he
       rw [hst] at he
       rcases Nat.lt_or_ge d s0.stack.length with hlt | hge
@@ -238,7 +254,8 @@ theorem push_loopSt (hyp : MHyp inst P dom lvl) {s0 : St} (i0 : Inv inst P dom l
         obtain ⟨n', hn', hle⟩ := i0.lvlLinks i n l h.2 hd hlk
         exact ⟨n', by rw [hgr]; exact getElem?_prefix hn', hle⟩
       | inr h => rw [h.2] at hd; cases hd
-  refine ⟨hyp.strat, i0, hu, hg, hb, hinv, ⟨topOf inst g, hgr⟩, hlen, hsext, fun k v h => h, ?_, rfl⟩
+  refine ⟨hyp.strat, i0, hu, hg, hb, hinv, ⟨topOf inst g, hgr⟩, hlen, hsext, fun k v h => h, ?_, rfl, id,
+    fun q => ⟨q, id⟩⟩
   intro k hu' hd
   exfalso
   cases hd with
@@ -253,9 +270,10 @@ theorem push_loopSt (hyp : MHyp inst P dom lvl) {s0 : St} (i0 : Inv inst P dom l
       subst e
       exact topOf_ne_botOf inst g hv
 
-theorem LoopSt.work {s0 st : St} {g : Nat} (L : LoopSt inst P dom lvl s0 g st) (w : Nat) :
-    LoopSt inst P dom lvl s0 g { st with work := w } :=
-  ⟨L.hP, L.i0, L.u0, L.gdom, L.below, L.inv.work w, L.graph, L.slen, L.sext, L.cacheExt, L.low, L.cacheMode⟩
+theorem LoopSt.work {s0 st : St} {g : Nat} (L : LoopSt inst P dom lvl fx s0 g st) (w : Nat) :
+    LoopSt inst P dom lvl fx s0 g { st with work := w } :=
+  ⟨L.hP, L.i0, L.u0, L.gdom, L.below, L.inv.work w, L.graph, L.slen, L.sext, L.cacheExt, L.low, L.cacheMode,
+   L.intr, L.quiet⟩
 
 end
 
